@@ -1145,6 +1145,9 @@ def run(ctx):
                 batch.append(make_case(tree, opts, cwd, roots))
         evaluate(ctx, batch, model, lambda i: i % cli_every == 0, fclones)
         ctx.extra["exhaustive"] = False
+        # --follow-links over link targets in every spelling (absolute through another link, `..`, chains): model-free oracle
+        from . import links_rt
+        links_rt.follow_alias_check(ctx, ctx.pick(30, 400))
     finally:
         for d in ctx.shm_dirs:
             shutil.rmtree(d, ignore_errors=True)
